@@ -155,10 +155,6 @@ func (e *Engine) mergeVal(g string, a, b Val, sa, sb *State, what string) Val {
 		if y, ok := b.(ErrV); ok {
 			return ErrV{e.share(ite(g, x.T, y.T), "Int")}
 		}
-	case OpaqueV:
-		if y, ok := b.(OpaqueV); ok {
-			return OpaqueV{ite(g, x.T, y.T)}
-		}
 	case OptV:
 		if y, ok := b.(OptV); ok {
 			nilT := ite(g, x.Nil, y.Nil)
@@ -303,7 +299,42 @@ func (e *Engine) mergeVal(g string, a, b Val, sa, sb *State, what string) Val {
 		}
 	case FuncV:
 		if y, ok := b.(FuncV); ok && x.Fn == y.Fn {
-			return x
+			nx, ny := x.Nil, y.Nil
+			if nx == "" && ny == "" {
+				return x
+			}
+			if nx == "" {
+				nx = "false"
+			}
+			if ny == "" {
+				ny = "false"
+			}
+			return FuncV{Fn: x.Fn, Bind: x.Bind, Nil: ite(g, nx, ny)}
+		}
+		if y, ok := b.(OpaqueV); ok && y.T == "nilU" {
+			nx := x.Nil
+			if nx == "" {
+				nx = "false"
+			}
+			return FuncV{Fn: x.Fn, Bind: x.Bind, Nil: ite(g, nx, "true")}
+		}
+		if y, ok := b.(OpaqueV); ok {
+			return OpaqueV{ite(g, e.fresh("fn", "U"), y.T)}
+		}
+	case OpaqueV:
+		if y, ok := b.(FuncV); ok && x.T == "nilU" {
+			ny := y.Nil
+			if ny == "" {
+				ny = "false"
+			}
+			return FuncV{Fn: y.Fn, Bind: y.Bind, Nil: ite(g, "true", ny)}
+		}
+		if y, ok := b.(OpaqueV); ok {
+			return OpaqueV{ite(g, x.T, y.T)}
+		}
+		if _, ok := b.(FuncV); ok {
+			// an unknown function value or a closure: the closure's identity is given up (calls become abstract)
+			return OpaqueV{ite(g, x.T, e.fresh("fn", "U"))}
 		}
 	case MapV:
 		if y, ok := b.(MapV); ok && x.Cell == y.Cell {
